@@ -9,6 +9,6 @@ import (
 
 func init() {
 	registry["C09"] = entry{run: c09.Run, replay: func(r *monitor.Run, d json.RawMessage) { c09.Replay(r, d) }, level: "fault_enumeration",
-		rule: "cases = crash points: a broker with the redis back end (on an in-process RESP server that journals every state-changing command) executes a generated client history one step at a time (persistent v3.1.1/v5 sessions, client ids that start with the letters of the key prefixes, subscriptions with all option values incl. shared, unsubscribes, QoS1/2 publishes to online and offline subscribers, withheld and later acks, QoS2 publishes left awaiting PUBREL) with a barrier after every step, so every journal position is either inside one step (in flight) or after its acknowledgement; for every prefix of the journal (thorough) or a stratified sample of 40 (quick) a fresh broker is started on the replayed store state and sessions, subscriptions with options, undelivered acknowledged messages and QoS2 duplicate detection are checked; operations in flight at the crash point may be either way. Non-trivial = at least one durable fact was checked at that crash point; distinct by (history, prefix length).",
+		rule: "cases = crash points: a broker with the redis back end (on an in-process RESP server that journals every state-changing command) executes a generated client history one step at a time (persistent v3.1.1/v5 sessions, client ids that start with the letters of the key prefixes, subscriptions with all option values incl. shared, unsubscribes, QoS1/2 publishes to online and offline subscribers, withheld and later acks, QoS2 publishes left awaiting PUBREL) with a barrier after every step, so every journal position is either inside one step (in flight) or after its acknowledgement; for every prefix of the journal (thorough) or a stratified sample of 40 (quick) a fresh broker is started on the replayed store state and sessions, subscriptions with options, undelivered acknowledged messages and QoS2 duplicate detection are checked; operations in flight at the crash point may be either way. Non-trivial = at least one durable fact was checked at that crash point; distinct by (history, prefix length). Plus a fixed history that replays five in-flight messages in batches (Receive Maximum 2) with inflight_expiry set; restarted brokers find their sessions through SCAN pages of 1-10 keys.",
 		assumptions: []string{"fakeredis implements the redis semantics of the commands gmqtt issues (it passes gmqtt's own redis store suites)", "a crash loses all volatile state between two storage commands; single commands are atomic", "redis itself does not lose acknowledged writes"}}
 }
